@@ -31,6 +31,16 @@ int pipe_init(int *read, int *write)
     goto finish;
   }
 
+  r = handle_move_above_std(&pair[0]);
+  if (r < 0) {
+    goto finish;
+  }
+
+  r = handle_move_above_std(&pair[1]);
+  if (r < 0) {
+    goto finish;
+  }
+
   r = handle_cloexec(pair[0], true);
   if (r < 0) {
     goto finish;
